@@ -49,7 +49,7 @@ LEVEL_TEXT = (
     "(stable list sort; every state visited: the traversal - recursion, generator or work list - starts at the root, feeds itself with the static and the "
     "dynamic successors - directly or through a local container that is bound and then filled statement by statement, each such statement lying on every path of a "
     "traversal step - and skips none that has transitions below it, a filtered iteration included); MapAdapter.match calls Map.update before the matcher on every path, Map.update "
-    "reaches the matcher's update whenever _remap is set and Map.add sets _remap after adding; the converters' class-level "
+    "reaches the matcher's update whenever _remap is set and Map.add sets _remap after adding (the adding may sit in private methods; the mark then follows it there or behind their call); the converters' class-level "
     "weights, resolved through the MRO, satisfy int/float < string/default < path; the Weighting of a part counts its literal "
     "pieces negatively and carries the weights of the converters obtained from get_converter; (R3.2) 405 bookkeeping - the "
     "loops over candidate rules in the search are evaluated as truth tables over their condition atoms: methods are recorded "
@@ -69,11 +69,11 @@ LEVEL_TEXT = (
     "paths on which the map-level `self.merge_slashes` is true (a statement that can also run with the flag off - a handler shared "
     "by both attempts - may see the merged path only through definitions that are executed under the flag); (R3.7) writer / reader agreement on "
     "anchoring - StateMachineMatcher.match applies a part's `content` as a regular expression from the first character of the path segment "
-    "(re `match` / `fullmatch`, written out, through a local, a module-level alias or a caching helper of re.compile - not `search`), and unless every "
+    "(re `match` / `fullmatch`, written out, through a local, a module-level alias or a caching helper of re.compile, or read back from a mapping the compiled patterns are kept in - every reader of that mapping in the class is followed - not `search`), and unless every "
     "application is `fullmatch`, the text of every RulePart that can be dynamic ends in the end-of-string assertion `\\Z` (`$` is not accepted: it also "
     "matches before a trailing newline) on every path through the functions of werkzeug.routing that build parts: decided by abstract execution of "
-    "those functions (known flags and the known end of strings per path, through `+=`, f-strings, `%` / format / join, conditional expressions, "
-    "slices, module constants, private helpers and closures), so a variable segment cannot admit a path segment that merely starts with "
+    "those functions (known flags and the known end of strings per path, through `+=`, f-strings, `%` / format with any number of fields / join, a local list of pieces that is appended to and joined, conditional expressions, "
+    "slices, module constants, private helpers and closures; a dynamic part whose end is not known on some path - and on no path known to lack the anchor - is exit 2, not a violation), so a variable segment cannot admit a path segment that merely starts with "
     "something its converter accepts; (R3.8) writer / reader agreement on the trailing slash of a final (slash-consuming) part - on no path does the "
     "regex of a part built with final=True end in a mandatory '/' (the matcher tells match, slash redirect and strict_slashes apart only after "
     "the regex matched the path without the slash, so the optional-slash suffix may not depend on strict_slashes or anything else), and a "
@@ -1143,19 +1143,43 @@ def _r31_update_calls(ctx: Ctx) -> None:
                 ok = sn is not None and any(cfg.node_dominates(i, sn) for i in inodes)
                 ctx.ob("R3.1", "_remap is cleared only after the matcher was re-sorted", ok, f"`{norm(st)}` dominated by self._matcher.update(): {ok}", mu, st, "remap cleared after sort")
     ma = repo.func("routing.map.Map.add")
-    cfg = cfg_of(ma)
     is_add = _method_on("add", "self._matcher")
-    adds = [c for c in astq.calls(ma.node, nested=False) if is_add(ma, c) or _always_calls(ctx, ma.cls, c, is_add)]
-    if not adds:
+
+    def marks(f: FuncInfo) -> list[Node]:
+        fc = cfg_of(f)
+        got = [fc.node_of(st) for st in walk_no_nested(f.node) if isinstance(st, ast.Assign) and any(norm(tg) == "self._remap" for tg in st.targets) and isinstance(st.value, ast.Constant) and st.value.value is True]
+        return [x for x in got if x is not None]
+
+    def marked_after(f: FuncInfo, c: ast.Call) -> bool:
+        fc = cfg_of(f)
+        A = fc.node_of(c)
+        ms_ = marks(f)
+        return bool(ms_) and A is not None and fc.all_paths_pass(A, [fc.exit], ms_)
+
+    def hand_over(f: FuncInfo, depth: int = 0) -> list[list[tuple[FuncInfo, ast.Call]]]:
+        """the places where a rule may be handed to the matcher, each as the chain of calls leading to it: the call in
+        Map.add first, then (the adding moved into private methods) the call inside each method on the way."""
+        out: list[list[tuple[FuncInfo, ast.Call]]] = []
+        for c in astq.calls(f.node, nested=False):
+            if is_add(f, c):
+                out.append([(f, c)])
+            elif depth < 2 and f.cls is not None and isinstance(c.func, ast.Attribute) and astq.is_name(c.func.value, "self"):
+                _, h = repo.lookup(f.cls, c.func.attr)
+                if isinstance(h, FuncInfo) and h is not f:
+                    out.extend([(f, c), *chain] for chain in hand_over(h, depth + 1))
+        return out
+
+    chains = hand_over(ma)
+    if not chains:
         raise AnalysisError(f"{ma.fq}: no call of self._matcher.add")
-    sets = [cfg.node_of(st) for st in walk_no_nested(ma.node) if isinstance(st, ast.Assign) and any(norm(tg) == "self._remap" for tg in st.targets) and isinstance(st.value, ast.Constant) and st.value.value is True]
-    sets = [s for s in sets if s is not None]
-    for c in adds:
-        A = cfg.node_of(c)
-        ok = bool(sets) and A is not None and cfg.all_paths_pass(A, [cfg.exit], sets)
+    for chain in chains:
+        # the mark may follow the hand-over at any level of the chain: inside the helper, or behind the helper's call
+        ok = any(marked_after(f, c) for f, c in chain)
+        f0, c0 = chain[-1]
         n += 1
+        via = "" if len(chain) == 1 else " (reached through " + " -> ".join(f"`{norm(c)[:40]}`" for _, c in chain[:-1]) + ")"
         ctx.ob("R3.1", "Map.add marks the map for re-sorting after handing a rule to the matcher", ok,
-               f"every path from `{norm(c)}` to the exit passes `self._remap = True`: {ok}", ma, c, "Map.add sets _remap")
+               f"every path from `{norm(c0)}`{via} to the exit passes `self._remap = True`: {ok}", ma, chain[0][1], "Map.add sets _remap")
     ctx.floor("R3.1", "update call sites", n, 3)
 
 
@@ -2803,47 +2827,156 @@ def _regex_applications(ctx: Ctx, m: _Matcher) -> tuple[list[tuple[str, ast.Call
         rets = astq.returns_of(r[0])
         if len(params) != 1 or not rets or astq.assigns_to(r[0], params[0]):
             return False
+        n_compiled = 0
+        pending: list[tuple[str, ast.AST]] = []
         for rt in rets:
             vals = _values_of(r[0], rt.value) if rt.value is not None else []
             if not vals:
                 return False
             for v in vals:
-                if not (isinstance(v, ast.Call) and _last(dotted(v.func)) == "compile" and v.args and astq.is_name(v.args[0], params[0])):
+                if isinstance(v, ast.Call) and _last(dotted(v.func)) == "compile" and v.args and astq.is_name(v.args[0], params[0]):
+                    n_compiled += 1
+                    continue
+                # read from a cache keyed by the same parameter: `cache.get(p)`, `cache[p]`, `cache.setdefault(p, re.compile(p))`
+                box = None
+                if isinstance(v, ast.Subscript) and astq.is_name(v.slice, params[0]):
+                    box = v.value
+                elif isinstance(v, ast.Call) and isinstance(v.func, ast.Attribute) and v.func.attr in ("get", "setdefault") and v.args and astq.is_name(v.args[0], params[0]):
+                    box = v.func.value
+                    if v.func.attr == "setdefault":
+                        d = v.args[1] if len(v.args) == 2 else None
+                        if not (isinstance(d, ast.Call) and _last(dotted(d.func)) == "compile" and d.args and astq.is_name(d.args[0], params[0])):
+                            return False
+                        n_compiled += 1
+                if box is None or not (isinstance(box, ast.Name) or (isinstance(box, ast.Attribute) and astq.is_name(box.value, "self"))):
                     return False
+                pending.append((norm(box), v))
+        if not n_compiled:
+            return False
+        for text, site in pending:
+            containers.setdefault(text, site)
         return True
 
-    def follow(pat: ast.AST) -> None:
-        """pat evaluates to the compiled pattern: find the method it is applied with."""
+    PASSIVE = ("pattern", "groupindex", "groups", "flags")
+    containers: dict[str, ast.AST] = {}  # text of a mapping expression the compiled patterns are kept in -> a site
+    followed: set[int] = set()
+
+    def kept_in(target: ast.AST) -> None:
+        """the compiled pattern is stored as `X[key] = ...`: X becomes a cache whose every reader is followed too."""
+        if not isinstance(target, ast.Subscript):
+            raise AnalysisError(f"{fi.fq}: the compiled regex of a rule part is stored in `{norm(target)[:60]}`: cannot tell how it is applied")
+        containers.setdefault(norm(target.value), target)
+
+    def uses_of(nm: str, F: ast.AST, what: str) -> int:
+        """every load of the local `nm` (bound to a compiled pattern) in F: applications are recorded; a store into a
+        mapping makes the mapping a cache; anything else is not understood."""
+        n_uses = 0
+        for x in ast.walk(F):
+            if not (isinstance(x, ast.Name) and x.id == nm and isinstance(x.ctx, ast.Load)):
+                continue
+            px = astq.parent(x)
+            if isinstance(px, ast.Attribute) and px.value is x:
+                ppx = astq.parent(px)
+                if px.attr in METHODS and isinstance(ppx, ast.Call) and ppx.func is px:
+                    apps.append((px.attr, ppx))
+                    n_uses += 1
+                    continue
+                if px.attr in PASSIVE:
+                    continue
+            if isinstance(px, ast.Compare):
+                continue  # `pat is None`
+            if isinstance(px, ast.Assign) and px.value is x and all(isinstance(tg, ast.Subscript) for tg in px.targets):
+                for tg in px.targets:
+                    kept_in(tg)  # `cache[key] = pat`
+                continue
+            if isinstance(px, ast.Call) and isinstance(px.func, ast.Attribute) and px.func.attr == "setdefault" and len(px.args) == 2 and px.args[1] is x:
+                containers.setdefault(norm(px.func.value), px)
+                value(px, what)  # what setdefault returns is a pattern of the cache again
+                continue
+            if isinstance(px, ast.Return) and F is not fi.node and F is not m.search:
+                continue  # a helper returning the pattern: its call sites are followed by compiled_by / the caller
+            raise AnalysisError(f"{fi.fq}: the compiled regex `{nm}` of a rule part is handed on (`{norm(px)[:60]}`): cannot tell how it is applied")
+        return n_uses
+
+    def value(pat: ast.AST, what: str) -> int:
+        """pat evaluates to a compiled pattern (freshly compiled, or read from a cache): find how it is applied.
+        Returns the number of applications found."""
+        if id(pat) in followed:
+            return 0
+        followed.add(id(pat))
         p = astq.parent(pat)
         if isinstance(p, ast.Attribute) and p.value is pat:
             pc = astq.parent(p)
             if p.attr in METHODS and isinstance(pc, ast.Call) and pc.func is p:
                 apps.append((p.attr, pc))
-                return
-            if p.attr in ("pattern", "groupindex", "groups", "flags"):
-                return
+                return 1
+            if p.attr in PASSIVE:
+                return 0
             raise AnalysisError(f"{fi.fq}: a rule part's compiled regex is used through `.{p.attr}`: cannot tell how it is anchored")
-        nm, _ = _bound_name(pat) if isinstance(pat, ast.Call) else (None, None)
+        if isinstance(p, ast.Compare):
+            return 0
+        F = _enclosing_func(pat) or fi.node
+        if isinstance(p, ast.Assign) and p.value is pat:
+            # `pat = cache[key] = re.compile(...)`: names are followed, subscripts make a cache
+            n = 0
+            names = [tg.id for tg in p.targets if isinstance(tg, ast.Name)]
+            for tg in p.targets:
+                if not isinstance(tg, ast.Name):
+                    kept_in(tg)
+            for nm_ in names:
+                n += uses_of(nm_, F, what)
+            if names and n == 0 and what == "compiled":
+                raise AnalysisError(f"{fi.fq}: the compiled regex `{names[0]}` of a rule part is never applied")
+            return n
+        if isinstance(p, ast.Call) and isinstance(p.func, ast.Attribute) and p.func.attr == "setdefault" and len(p.args) == 2 and p.args[1] is pat:
+            containers.setdefault(norm(p.func.value), p)
+            return value(p, what)
+        nm, _ = _bound_name(pat) if isinstance(pat, (ast.Call, ast.Subscript)) else (None, None)
         if nm is None:
             raise AnalysisError(f"{fi.fq}: cannot tell how the compiled regex `{norm(pat)[:60]}` of a rule part is applied")
-        F = _enclosing_func(pat) or fi.node
-        n_uses = 0
-        for x in ast.walk(F):
-            if isinstance(x, ast.Name) and x.id == nm and isinstance(x.ctx, ast.Load):
-                px = astq.parent(x)
-                if isinstance(px, ast.Attribute) and px.value is x:
-                    ppx = astq.parent(px)
-                    if px.attr in METHODS and isinstance(ppx, ast.Call) and ppx.func is px:
-                        apps.append((px.attr, ppx))
-                        n_uses += 1
-                        continue
-                    if px.attr in ("pattern", "groupindex", "groups", "flags"):
-                        continue
-                if isinstance(px, ast.Compare):
-                    continue  # `pat is None`
-                raise AnalysisError(f"{fi.fq}: the compiled regex `{nm}` of a rule part is handed on (`{norm(px)[:60]}`): cannot tell how it is applied")
-        if n_uses == 0:
+        n = uses_of(nm, F, what)
+        if n == 0 and what == "compiled":
             raise AnalysisError(f"{fi.fq}: the compiled regex `{nm}` of a rule part is never applied")
+        return n
+
+    def follow(pat: ast.AST) -> None:
+        value(pat, "compiled")
+
+    def follow_caches() -> None:
+        """every reader of a mapping that holds compiled part patterns applies what it reads like a pattern: the
+        mapping is looked for in the whole class (an attribute of self) or in the function (a local)."""
+        done: set[str] = set()
+        while set(containers) - done:
+            text = sorted(set(containers) - done)[0]
+            done.add(text)
+            scopes: list[ast.AST] = [fi.node]
+            if text.startswith("self.") and text[5:].isidentifier() and fi.cls is not None:
+                scopes = [fi.cls.node]
+            elif not text.isidentifier():
+                raise AnalysisError(f"{fi.fq}: compiled part regexes are kept in `{text}`: cannot find every reader of it")
+            elif text in fi.module.assigns:
+                scopes = [fi.module.tree]
+            for sc in scopes:
+                for x in ast.walk(sc):
+                    if not (isinstance(x, (ast.Attribute, ast.Name)) and isinstance(getattr(x, "ctx", None), ast.Load) and norm(x) == text):
+                        continue
+                    px = astq.parent(x)
+                    if isinstance(px, ast.Subscript) and px.value is x:
+                        if isinstance(px.ctx, ast.Load):
+                            value(px, "cached")
+                        continue  # a store / del of an entry
+                    if isinstance(px, ast.Attribute) and px.value is x:
+                        pc = astq.parent(px)
+                        if isinstance(pc, ast.Call) and pc.func is px:
+                            if px.attr in ("get", "setdefault", "pop"):
+                                value(pc, "cached")
+                                continue
+                            if px.attr in ("clear", "keys", "__contains__", "__len__"):
+                                continue
+                        raise AnalysisError(f"{fi.fq}: the cache `{text}` of compiled part regexes is used through `.{px.attr}`: cannot tell how the patterns in it are applied")
+                    if isinstance(px, ast.Compare) or (isinstance(px, ast.Call) and _last(dotted(px.func)) in ("len", "bool")):
+                        continue  # `key in cache`, `len(cache)`
+                    raise AnalysisError(f"{fi.fq}: the cache `{text}` of compiled part regexes is handed on (`{norm(px)[:60]}`): cannot tell how the patterns in it are applied")
 
     for x in ast.walk(fi.node):
         if not (isinstance(x, ast.Attribute) and x.attr == "content" and isinstance(x.ctx, ast.Load)):
@@ -2879,6 +3012,11 @@ def _regex_applications(ctx: Ctx, m: _Matcher) -> tuple[list[tuple[str, ast.Call
                 continue
             else:
                 raise AnalysisError(f"{fi.fq}: `{norm(px)[:60]}`: cannot tell how the matcher uses a rule part's content")
+    follow_caches()
+    uniq: dict[int, tuple[str, ast.Call]] = {}
+    for a in apps:
+        uniq.setdefault(id(a[1]), a)
+    apps = list(uniq.values())
     inspected = False
     for _, call in apps:
         nm, _ = _bound_name(call)
@@ -3011,6 +3149,7 @@ def _r37_r38(ctx: Ctx, m: _Matcher) -> None:
             n_dyn += 1
             bad: list[str] = []
             good: list[str] = []
+            unknown: list[str] = []
             for v, mk in dyn:
                 cv, sv = v.get("content", DATA), v.get("static", DATA)
                 if not is_s(cv):
@@ -3025,8 +3164,14 @@ def _r37_r38(ctx: Ctx, m: _Matcher) -> None:
                     raise AnalysisError(f"{getattr(where, 'fq', where)}: `{norm(call)[:70]}`: the content ends in {show(cv)} on a path through {list(mk)}, a condition the rule cannot read")
                 if inspected:
                     raise AnalysisError(f"{fi.fq}: the matcher looks at the end position of the match object: cannot decide whether that replaces the end anchor missing in `{norm(call)[:60]}`")
+                if not cv[1] and cv[2] in ("", "Z"):
+                    # nothing (or too little) is known about the end of the text: by itself that is not a missing anchor
+                    unknown.append(show(cv))
+                    continue
                 note = " (`$` also matches before a trailing newline: it is not an end anchor)" if cv[2].endswith("$") else ""
                 bad.append(show(cv) + note)
+            if unknown and not bad:
+                raise AnalysisError(f"{getattr(where, 'fq', where)}: `{norm(call)[:70]}`: cannot follow what the content of this dynamic part ends in on some path ({_some(unknown)})")
             how = f"the matcher applies it with {methods}"
             ctx.ob("R3.7", "the regex of a dynamic part ends in the end-of-string anchor on every path that builds the part (the matcher anchors only the start)", not bad,
                    f"`{norm(call)[:80]}`: {how}; content ends in " + (f"{_some(bad)} on some path: a segment that merely starts with what the converter accepts is admitted" if bad else _some(good) + ("" if need_end else " (fullmatch: no anchor needed)")),
@@ -3054,17 +3199,21 @@ def _r37_r38(ctx: Ctx, m: _Matcher) -> None:
         if suff:
             n_suff += 1
             bad = []
+            unread: list[str] = []
             for v, mk in suff:
                 cv = v.get("content", DATA)
                 if not is_s(cv):
                     raise AnalysisError(f"{getattr(where, 'fq', where)}: `{norm(call)[:70]}`: cannot follow how the content of this suffixed part is put together")
-                verdict = _optional_slash_group(cv[2])
+                verdict = _optional_slash_group(cv[2], cv[1])
                 if verdict is None:
-                    raise AnalysisError(f"{getattr(where, 'fq', where)}: `{norm(call)[:70]}`: cannot read the end {show(cv)} of the suffixed part's regex")
+                    unread.append(show(cv))
+                    continue
                 if not verdict:
                     if mk:
                         raise AnalysisError(f"{getattr(where, 'fq', where)}: `{norm(call)[:70]}`: suffixed content {show(cv)} on a path through {list(mk)}, a condition the rule cannot read")
                     bad.append(show(cv))
+            if unread and not bad:
+                raise AnalysisError(f"{getattr(where, 'fq', where)}: `{norm(call)[:70]}`: cannot read the end {_some(unread)} of the suffixed part's regex")
             ctx.ob("R3.8", "a part marked suffixed ends in a group that captures the optional trailing slash (the matcher reads the slash from the last group)", not bad,
                    f"`{norm(call)[:80]}`: " + (f"content ends in {_some(bad)}: its last group is not the optional slash" if bad else "last group captures '' / '/'"),
                    where, call, "suffixed part captures the slash | " + norm(call)[:100])
@@ -3073,13 +3222,14 @@ def _r37_r38(ctx: Ctx, m: _Matcher) -> None:
     ctx.floor("R3.8", "constructions of a suffixed rule part", n_suff, 1)
 
 
-def _optional_slash_group(tail: str) -> bool | None:
+def _optional_slash_group(tail: str, exact: bool = True) -> bool | None:
     """the regex text ends (before the end anchor) in a capturing group that matches the empty string and '/', and
     the group is the last one: decided with the re engine on the longest suffix of the known text that is a regex of
-    its own.  None: no suffix parses."""
+    its own.  None: cannot tell - no suffix parses, or (only the end of the text being known) the known end may be
+    the tail of a group that opens in the part that is not known."""
     import re
 
-    parsed = False
+    parsed = grouped = False
     for i in range(len(tail)):
         frag = tail[i:]
         if frag.startswith((")", "?", "*", "+", "|", "{")) or (i and tail[i - 1] == "\\"):
@@ -3091,6 +3241,7 @@ def _optional_slash_group(tail: str) -> bool | None:
         parsed = True
         if rx.groups == 0:
             continue
+        grouped = True
         ok = True
         for probe in ("", "/"):
             mm = rx.match(probe)
@@ -3098,7 +3249,39 @@ def _optional_slash_group(tail: str) -> bool | None:
                 ok = False
         if ok:
             return True
-    return False if parsed else None
+    if exact or grouped:
+        return False  # the whole text, or at least its last capturing group, is in view
+    body = _strip_anchor(tail)
+    while body and body[-1] in "?*+":
+        body = body[:-1]
+    if body.endswith("}") and "{" in body:
+        body = body[:body.rindex("{")]
+    if not body:
+        return None
+    if body[-1] != ")":
+        return False  # whatever precedes the known end: the text does not end in a group
+    # the parenthesis that closes the text: is its opener in view?  (no capturing group is, so an opener in view is
+    # a non-capturing one: the text does not end in a capturing group)
+    stack: list[int] = []
+    k, in_class = 0, False
+    while k < len(body):
+        ch = body[k]
+        if ch == "\\":
+            k += 2
+            continue
+        if in_class:
+            in_class = ch != "]"
+        elif ch == "[":
+            in_class = True
+        elif ch == "(":
+            stack.append(k)
+        elif ch == ")":
+            if k == len(body) - 1:
+                return False if stack else None
+            if stack:
+                stack.pop()
+        k += 1
+    return None
 
 
 # ----------------------------------------------------------------------
